@@ -17,6 +17,8 @@ mod record;
 mod codec;
 mod taproot;
 mod lifecycle;
+mod spy;
+mod interop;
 
 #[global_allocator]
 static ALLOC: lifecycle::SpyAlloc = lifecycle::SpyAlloc;
@@ -115,7 +117,7 @@ pub fn run_script<C: Suite>(script: &Value, idx: u64, rep: &mut Report, want_eve
             res["err"].as_str().unwrap_or("err").to_string()
         };
         *rep.cover.entry(format!("{op}:{outcome}")).or_insert(0) += 1;
-        let queries = if C::IS_TOY { toy::oracle_take_log() } else { vec![] };
+        let queries: Vec<Value> = C::take_queries();
         let mut mism: Vec<Value> = vec![];
         if res.get("panic").is_some() {
             mism.push(json!({"key": "panic", "got": res["panic"]}));
@@ -136,8 +138,8 @@ pub fn run_script<C: Suite>(script: &Value, idx: u64, rep: &mut Report, want_eve
             }
             // every hash query must be one the model made (exact preimage)
             if script.get("oracle").is_some() {
-                for q in queries.iter().filter(|q| !q.hit) {
-                    mism.push(json!({"key": "oracle_miss", "tag": q.tag, "got": interp::bytes_json(&q.pre)}));
+                for q in queries.iter().filter(|q| q[3].as_bool() == Some(false)) {
+                    mism.push(json!({"key": "oracle_miss", "tag": q[0], "got": q[1]}));
                 }
             }
         }
@@ -154,8 +156,7 @@ pub fn run_script<C: Suite>(script: &Value, idx: u64, rep: &mut Report, want_eve
             }
         }
         if want_events {
-            let qs: Vec<Value> =
-                queries.iter().map(|q| json!([q.tag, interp::bytes_json(&q.pre), q.ans])).collect();
+            let qs: Vec<Value> = queries.iter().map(|q| json!([q[0], q[1], q[2]])).collect();
             let mut ev = st.clone();
             if let Value::Object(m) = &mut ev {
                 m.remove("expect");
@@ -293,6 +294,10 @@ fn cmd_run(args: &[String]) -> i32 {
 
 fn lifecycle_one<C: Suite>(seed: u64, rounds: u64, f: &mut dyn Write) -> u64 {
     lifecycle::run::<C>(seed, rounds, f)
+}
+
+fn interop_one<C: Suite>(seed: u64, count: u64, f: &mut dyn Write) -> u64 {
+    interop::run::<C>(seed, count, f)
 }
 
 fn codec_one<C: Suite>(seed: u64, heavy: bool, f: &mut dyn Write) -> (u64, u64) {
@@ -446,6 +451,25 @@ fn main() {
         Some("record") => record::cmd_record(&args[2..]),
         Some("run") => cmd_run(&args[2..]),
         Some("codec") => cmd_codec(&args[2..]),
+        Some("interop") => {
+            let a = &args[2..];
+            let suite = arg_val(a, "--suite").unwrap_or_else(|| "ed25519".into());
+            let seed: u64 = arg_val(a, "--seed").and_then(|s| s.parse().ok()).unwrap_or(1);
+            let count: u64 = arg_val(a, "--count").and_then(|s| s.parse().ok()).unwrap_or(50);
+            let out = arg_val(a, "--events").expect("--events");
+            let mut f = std::io::BufWriter::new(std::fs::File::create(out).expect("events file"));
+            let k = if suite == "toy" {
+                let q: u32 = arg_val(a, "--q").and_then(|s| s.parse().ok()).unwrap_or(251);
+                toy::set_params(toy::ToyParams::for_q(q).expect("toy params"));
+                interop::toy_all_u16(&mut f);
+                1
+            } else {
+                with_suite!(suite.as_str(), interop_one(seed, count, &mut f))
+            };
+            let _ = f.flush();
+            println!("SUMMARY {}", json!({"events": k}));
+            0
+        }
         Some("lifecycle") => {
             let a = &args[2..];
             let suite = arg_val(a, "--suite").unwrap_or_else(|| "ed25519".into());
